@@ -472,15 +472,19 @@ class Sizes:
                     empty_init = (init[0] in ('list', 'tuple') and not init[1]) or (init[0] == 'call' and init[1] == 'list' and not init[2])
                     if per.is_const() and (empty_init or init[0] in ('list', 'tuple')):
                         return base + self.lin(('call', 'len', (it,), ()), st).scale(per.const)
-            # assert len(x) == y on this path
+            # assert len(x) == y on this path (each relation is used once per chain: `assert len(a) == len(b)` must not ping-pong)
             if st is not None:
+                stack = self.__dict__.setdefault('_assert_stack', [])
                 for ev in st.events:
-                    if ev[0] == 'assert' and ev[1][0] == 'cmp' and ev[1][1] == '==':
+                    if ev[0] == 'assert' and ev[1][0] == 'cmp' and ev[1][1] == '==' and id(ev) not in stack:
                         a, b = ev[1][2], ev[1][3]
-                        if a == v:
-                            return self.lin(b, st)
-                        if b == v:
-                            return self.lin(a, st)
+                        other = b if a == v else (a if b == v else None)
+                        if other is not None:
+                            stack.append(id(ev))
+                            try:
+                                return self.lin(other, st)
+                            finally:
+                                stack.pop()
         if k == 'call' and v[1] == 'struct.calcsize' and len(v[2]) == 1 and is_const(v[2][0]):
             n = struct_size(v[2][0][1])
             if n is not None:
@@ -496,7 +500,14 @@ class Sizes:
         return LinS({v: 1})
 
     def size(self, obj, st):
-        """LinS of obj.size() for a symbolic object."""
+        """LinS of obj.size() for a symbolic object; a size() that is not understood becomes an opaque unknown (whatever compares
+        it ends without verdict) instead of aborting the analysis of the pass."""
+        try:
+            return self._size(obj, st)
+        except AnalysisError as e:
+            return LinS({('opaque', 'size(): ' + str(e)[:120]): 1})
+
+    def _size(self, obj, st):
         if obj[0] in ('call', 'mcall') or (obj[0] == 'new' and any(isinstance(a, tuple) and a and a[0] in ('call', 'mcall', 'name') for a in obj[2])):
             r = self.resolve(obj, st)
             if r != obj:
@@ -627,6 +638,17 @@ def contains_value(v, x):
     return isinstance(v, tuple) and any(contains_value(y, x) for y in v if isinstance(y, tuple))
 
 
+def structured_const(val):
+    """A folded Python constant as a symbolic value (containers become 'dict' / 'tuple' / 'list' values: hashable)."""
+    if isinstance(val, dict):
+        return ('dict', tuple((structured_const(k), structured_const(v)) for k, v in val.items()))
+    if isinstance(val, (tuple, list)):
+        return ('tuple' if isinstance(val, tuple) else 'list', tuple(structured_const(x) for x in val))
+    if isinstance(val, (set, frozenset)):
+        return ('set', tuple(structured_const(x) for x in sorted(val, key=repr)))
+    return C(val)
+
+
 def class_constant(facts, cls, attr):
     """(owner class, constant value) of a class-level constant `attr = <literal>` visible on instances of cls."""
     for c in facts.mro(cls):
@@ -639,8 +661,10 @@ def class_constant(facts, cls, attr):
                     val = fold(st.value, facts.consts)
                 except NotConstant:
                     return c, None
-                if isinstance(val, (int, str, bytes, dict, tuple)):
+                if isinstance(val, (int, str, bytes)):
                     return c, C(val)
+                if isinstance(val, (dict, tuple, list)):
+                    return c, structured_const(val)
                 return c, None
     return None, None
 
